@@ -32,6 +32,8 @@ def run(chk):
     e10.run_U(chk, ("yastn.tensor._merging", "yastn.tensor._contractions", "yastn.tensor._algebra", "yastn.tensor._legs", "yastn.initialize"), floor1=5, floor2=1)
 
 MUTANTS = [
+    ("mask test only on blocked legs", "yastn/initialize.py", "        if any(_legs_mask_needed(ulegs[n][pa[n]], leg) for n, leg in enumerate(legs_tn[pa])):", "        if any(_legs_mask_needed(ulegs[n][pa[n]], legs_tn[pa][n]) for n in out_b):", "F4"),
+    ("mask test skips the first leg", "yastn/initialize.py", "        if any(_legs_mask_needed(ulegs[n][pa[n]], leg) for n, leg in enumerate(legs_tn[pa])):", "        if any(_legs_mask_needed(ulegs[n][pa[n]], leg) for n, leg in enumerate(legs_tn[pa]) if n > 0):", "F4"),
     ("verdict overwritten per pair", "yastn/tensor/_algebra.py", "        mask_needed_ab, _ = _unpack_trans_test_axes_pair(a, b, sgn=1)\n        mask_needed = mask_needed or mask_needed_ab", "        mask_needed, _ = _unpack_trans_test_axes_pair(a, b, sgn=1)", "F2"),
     ("verdict dropped in tensordot", "yastn/tensor/_contractions.py", "    mask_needed, (nin_a, nin_b) = _unpack_trans_test_axes_pair(a, b, sgn=-1, axes=(in_a, in_b))\n    # nin_a and nin_b take into account",
      "    _, (nin_a, nin_b) = _unpack_trans_test_axes_pair(a, b, sgn=-1, axes=(in_a, in_b))\n    mask_needed = False\n    # nin_a and nin_b take into account", "F2"),
@@ -42,6 +44,7 @@ MUTANTS = [
      "        msk_a, msk_b, a_hfs, b_hfs = _mask_tensors_leg_intersection(a, b, nin_a, nin_b)\n        a = _apply_mask_axes(a, in_a, msk_a)\n        b = _apply_mask_axes(b, nin_b, msk_b)\n        a = a._replace(hfs=a_hfs)\n        b = b._replace(hfs=b_hfs)\n\n    if a.config.tensordot_policy", "F3"),
 ]
 BENIGN = [
+    ("mask test over an index range", "yastn/initialize.py", "        if any(_legs_mask_needed(ulegs[n][pa[n]], leg) for n, leg in enumerate(legs_tn[pa])):", "        if any(_legs_mask_needed(ulegs[n][pa[n]], legs_tn[pa][n]) for n in range(len(ulegs))):"),
     ("verdict accumulated with |=", "yastn/tensor/_algebra.py", "        mask_needed = mask_needed or mask_needed_ab", "        mask_needed |= mask_needed_ab"),
     ("rename verdict", "yastn/tensor/_contractions.py", "    mask_needed, (nin_0, nin_1) = _unpack_trans_test_axes_pair(a, a, sgn=-1, axes=(in_0, in_1))", "    mask_needed, (nin_0, nin_1) = _unpack_trans_test_axes_pair(a, a, axes=(in_0, in_1), sgn=-1)"),
 ]
